@@ -242,4 +242,20 @@ CHECKS = {
              "outside": "more than 5 peers, thresholds other than the default, the real queryAllPeers goroutines and timers"},
         ],
     },
+    "C11": {
+        "assumptions": COMMON_ASSUMPTIONS + [
+            "the notification source is a scripted stub (backlog = heights above the requested one); lnd's queue.ConcurrentQueue runs as real SSA under the engine's scheduler",
+            "deterministic run-to-block scheduling: the handler, queue and forwarding goroutines run whenever the harness blocks; subscribers read only at the end (the slowest consumer) or in bursts; free interleavings of many real goroutines are not explored (reduced scope)",
+        ],
+        "groups": [
+            {"name": "manager", "pkg": "blockntfns", "harness_dir": "blockntfns", "harness": "VerifH_C11_(events|slowSubscriber)",
+             "inits": ["github.com/lightninglabs/neutrino/blockntfns", "github.com/lightningnetwork/lnd/queue", "io"],
+             "anchored_files": ["blockntfns/manager.go", "blockntfns/notification.go"],
+             "params": {"events": 5, "burst": 23}, "thorough": {"params": {"events": 7, "burst": 45}},
+             "no_native_replay_for": {"VerifH_C11_events": "the counterexample depends on the goroutine schedule (when the handler, queue and forwarder run relative to the harness), which the native runtime cannot be forced to follow"},
+             "must_reach": {"VerifH_C11_events": ["subscribed-with-backlog", "emitted", "cancelled", "stopped"],
+                            "VerifH_C11_slowSubscriber": ["slow-subscriber-cancelled"]},
+             "outside": "more than 2 subscribers, more than 5 (7) events, arbitrary interleavings of the goroutines (only the run-to-block schedule)"},
+        ],
+    },
 }
